@@ -12,7 +12,7 @@ def run(ctx):
     common.standard(
         ctx, harness="hC15", extracted="C15_model", driver_dir="C15",
         rule=("non-trivial: pp cases in a documented form with well-formed name and literals; gcd/gcdm cases with positive arguments; "
-              "build cases with >=2 scenarios; shot cases with >=2 shots or a failing step; every inst case; iter cases with >=2 goroutines; "
+              "build cases with >=2 scenarios; shot cases with >=2 shots or a failing step; every inst case; iter cases with >=2 goroutines; csv cases judged by csv_spec with >=2 lines and a tab/blank delimiter, header-named fields or an ignored first line; "
               "distinct = distinct case lines"),
         key_fn=key_fn,
         translators=[("gofn-math", "GoFnMathGen.v")], bridge_files=["Gen/GoFnMath_bridge.v",
